@@ -9,7 +9,8 @@ EXPLANATION = (
     "same X on every CFG path to return. R2 (purge argument): in delete_entities, on the Err edge of the kill result delete_components is called "
     "on every path with a slice whose data roots include BOTH the batch parameter and the failure position taken from that same Err payload, and "
     "on the Ok edge with the batch parameter itself; in maintain, delete_components is called with the merge() result and can be skipped only "
-    "under a condition computed from that same result. R3 (the walk): delete_components loops over MetaTable::iter_mut and every iteration "
+    "under a condition computed from that same result; and inside merge every index whose generation slot dies is pushed (as a handle) into "
+    "the returned vector on every path of its iteration. R3 (the walk): delete_components loops over MetaTable::iter_mut and every iteration "
     "calls AnyStorage::drop(item, the parameter); <MaskedStorage<T> as AnyStorage>::drop calls MaskedStorage::drop(self, id of each element). "
     "R4 (who may purge): the crate-local callers of delete_components are a subset of {delete_entities, maintain}, of AnyStorage::drop a subset of "
     "{delete_components}, of MaskedStorage::drop(id) a subset of {the AnyStorage impl}."
@@ -41,6 +42,9 @@ def run(ctx):
         r2(ctx, facts)
         r3(ctx, facts)
         r4(ctx, facts)
+        from ..alloc import AllocModel
+        from . import _alloc_rules
+        _alloc_rules.merge_accounting(ctx, facts, AllocModel(facts), {'report': 'C05-R2'})
 
 
 def masked_arg(c):
